@@ -53,40 +53,57 @@ def coq_bool(b):
     return "true" if b else "false"
 
 
-def eval_route_cases(ck, name, walk, root, cases):
-    """cases of ONE configuration and ONE served root router -> (mismatch ids, spec violation ids)"""
-    cfg = walk["config"]
+def eval_route_groups(ck, name, groups):
+    """groups: list of (walk line, root, cases, with_spec) -- several configurations / served roots in ONE Coq file
+    -> (mismatch ids, spec violation ids, names of configurations whose dispatch is not exact, output)"""
     strs = {}
 
     def ref(b):
         if b not in strs:
             strs[b] = "s%d" % len(strs)
         return strs[b]
-    lines = []
-    for c in cases:
-        q, o = c["req"], c["obs"]
-        auth = unhex(q["auth"]) if q["has_auth"] else b""
-        lines.append("mk %d %s %s %s %s %d %d %s %d %s %s %s" % (
-            c["id"], ref(q["method"].encode()), ref(q["path"].encode()), ref(auth), coq_bool(q["gzip"]), q["hstatus"],
-            o["status"], coq_bool(o["ran"] > 0), o["backend"], coq_bool(o["www"]),
-            coq_bool(o["gzip"]), coq_bool(o["cors"])))
+    body = ""
+    ms, vs, xs = [], [], []
+    for gi, (walk, root, cases, with_spec) in enumerate(groups):
+        cfg = walk["config"]
+        lines = []
+        for c in cases:
+            q, o = c["req"], c["obs"]
+            auth = unhex(q["auth"]) if q["has_auth"] else b""
+            # a hijacked connection answers on the raw socket: headers set on the ResponseWriter (CORS) are not sent;
+            # the CORS flag is not compared for those (status, handler-ran, WWW-Authenticate and gzip are)
+            cors = o["cors"] if not o.get("hijacked") else bool(cfg["cors"])
+            lines.append("mk %d %s %s %s %s %d %d %s %d %s %s %s" % (
+                c["id"], ref(q["method"].encode()), ref(q["path"].encode()), ref(auth), coq_bool(q["gzip"]), q["hstatus"],
+                o["status"], coq_bool(o["ran"] > 0), o["backend"], coq_bool(o["www"]),
+                coq_bool(o["gzip"]), coq_bool(cors)))
+        body += "Definition ops%d := Eval vm_compute in active (env_of_list [%s]) gen_assembly.\n" % (gi, "; ".join(coq_bool(b) for b in walk["env"]))
+        body += "Definition login%d := %s.\nDefinition pass%d := %s.\n" % (gi, coq_string(cfg["login"]), gi, coq_string(cfg["pass"]))
+        body += "Definition cases%d : list rcase := [\n  %s].\n" % (gi, ";\n  ".join(lines))
+        xs.append("dispatch_exact ops%d" % gi)
+        ms.append("mismatches true login%d pass%d ops%d %d%%nat cases%d" % (gi, gi, gi, root, gi))
+        if with_spec:
+            vs.append("spec_violations login%d pass%d cases%d" % (gi, gi, gi))
     txt = HEAD
-    txt += "Definition ops := Eval vm_compute in active (env_of_list [%s]) gen_assembly.\n" % "; ".join(coq_bool(b) for b in walk["env"])
-    txt += "Definition login := %s.\nDefinition pass := %s.\n" % (coq_string(cfg["login"]), coq_string(cfg["pass"]))
     for b, n in strs.items():
         txt += "Definition %s : string := %s.\n" % (n, coq_string(b))
     txt += ("Definition mk (id : N) (m p a : string) (gz : bool) (tag st : N) (hr : bool) (be : N) (w g c : bool) : rcase :=\n"
             "  {| c_id := id; c_req := {| q_method := m; q_path := p; q_auth := a; q_gzip := gz; q_tag := tag |};\n"
             "     c_obs := {| o_status := st; o_handler := hr; o_backend := be; o_www := w; o_gzip := g; o_cors := c |} |}.\n")
-    txt += "Definition cases : list rcase := [\n  " + ";\n  ".join(lines) + "].\n"
-    txt += "Definition X := Eval vm_compute in dispatch_exact ops.\nPrint X.\n"
-    txt += "Definition M := Eval vm_compute in mismatches true login pass ops %d%%nat cases.\nPrint M.\n" % root
-    txt += "Definition V := Eval vm_compute in spec_violations login pass cases.\nPrint V.\n"
+    txt += body
+    txt += "Definition X := Eval vm_compute in [%s].\nPrint X.\n" % "; ".join(xs)
+    txt += "Definition M := Eval vm_compute in (%s)%%list.\nPrint M.\n" % " ++ ".join(ms + ["[]"])
+    txt += "Definition V := Eval vm_compute in (%s)%%list.\nPrint V.\n" % " ++ ".join(vs + ["[]"])
     rc, out = ck.coq_eval(name, txt)
     if rc != 0:
         return None, None, None, out
-    exact = "X = true" in " ".join(out.split())
-    return ids_of(out, "M"), ids_of(out, "V"), exact, out
+    flat = " ".join(out.split())
+    m = re.search(r"X = \[(.*?)\]\s*: list bool", flat)
+    flags = re.findall(r"true|false", m.group(1)) if m else []
+    inexact = [g[0]["cfg"] for g, fl in zip(groups, flags) if fl != "true"]
+    if len(flags) != len(groups):
+        inexact = [g[0]["cfg"] for g in groups]
+    return ids_of(out, "M"), ids_of(out, "V"), inexact, out
 
 
 def eval_auth_cases(ck, name, login, pw, cases):
@@ -114,8 +131,12 @@ def curl_of(c, cfg=None):
         h = " -H %s" % json.dumps("Authorization: " + unhex(q["auth"]).decode("latin1"))
     if q.get("gzip"):
         h += " -H 'Accept-Encoding: gzip'"
-    if q.get("origin"):
+    if q.get("origin") or q.get("preflight"):
         h += " -H 'Origin: http://elsewhere.example'"
+    if q.get("preflight"):
+        h += " -H 'Access-Control-Request-Method: %s' -H 'Access-Control-Request-Headers: authorization'" % q["preflight"]
+    if q.get("upgrade"):
+        h += " -H 'Connection: Upgrade' -H 'Upgrade: websocket' -H 'Sec-WebSocket-Version: 13' -H 'Sec-WebSocket-Key: dGhlIHNhbXBsZSBub25jZQ=='"
     return "curl -i -X %s%s http://<qryn>:3100%s   # configured credentials: %s" % (q["method"], h, q["path"], cfg or c.get("cfg"))
 
 
@@ -163,6 +184,20 @@ def run_locked(ck):
     ck.obligation("translator followed the router value everywhere (no OUnknown / OServeOther)", not unknown,
                   "; ".join("%s @%s" % (o.get("what"), o["pos"]) for o in unknown[:6]))
     ck.extra["assembly"] = {"ops": len(ops), "routes": nroutes, "atoms": [a["kind"] for a in asm["atoms"]], "notes": asm.get("notes")}
+    # census of listeners / servers / handler registrations in EVERY non-test source file (all build tags)
+    census = asm.get("census") or []
+    flagged = [c for c in census if c.get("flagged")]
+    ck.obligation("census: every site that can open a listener or attach a handler outside the tracked router is explained by the assembly "
+                  "(%d sites: %s)" % (len(census), ", ".join("%s x%d" % (k, v["sites"]) for k, v in sorted((asm.get("census_counts") or {}).items()))),
+                  not flagged and len(census) > 0, "; ".join("%s @%s %s" % (c["kind"], c["pos"], c.get("src", "")) for c in flagged[:6]))
+    ck.obligation("census: nothing serves http.DefaultServeMux (a nil handler), so what http.Handle / pprof / expvar register there is unreachable",
+                  not asm.get("default_mux_served"), "served at %s; registered patterns %s" % (asm.get("default_mux_served"), asm.get("default_mux_patterns")))
+    opaque = {o["mw"]: o["opaque"] for o in ops if o["op"] == "use" and o.get("opaque")}
+    ck.obligation("source of the wrappers the model treats as pass-through (AcceptEncoding, Cors, Logging): every path through the handler "
+                  "calls next.ServeHTTP exactly once and nothing answers before it", not opaque, json.dumps(opaque))
+    ck.extra["server_census"] = {"counts": asm.get("census_counts"), "sites": census,
+                                 "default_mux_patterns": asm.get("default_mux_patterns"), "default_mux_served": asm.get("default_mux_served"),
+                                 "pass_through_source": asm.get("pass_through_source")}
 
     props_ok = ck.coq_props()
 
@@ -225,9 +260,31 @@ def run_locked(ck):
     ck.obligation("gorilla/mux behaves as model/Router.v assumes (Use covers earlier routes; sub-router inherits; 404/405 skip middlewares; fresh router shares nothing)",
                   not bad, json.dumps(bad))
 
+    # -------- the pass-through wrappers alone; the default mux of a process that links the repository's packages
+    mwp = [l for l in lines if l["kind"] == "mwprobe"]
+    ck.obligation("AcceptEncoding / Cors / Logging call next exactly once and pass its status on, for every method (incl. OPTIONS) and header set "
+                  "(pre-flight, Access-Control-Request-Method alone, websocket upgrade, gzip): %d probes" % (mwp[0]["n"] if mwp else 0),
+                  bool(mwp) and mwp[0]["bad"] == 0 and mwp[0]["n"] > 0, json.dumps(mwp[0].get("rows") if mwp else None))
+    dmp = [l for l in lines if l["kind"] == "defaultmux"]
+    dm_status = dmp[0]["status"] if dmp else {}
+    ck.extra["default_mux_of_a_process_linking_the_packages"] = dm_status
+    if asm.get("default_mux_served"):
+        exposed = sorted(p for p, st in dm_status.items() if st != 404)
+        if exposed:
+            where = asm["default_mux_served"][0]
+            ck.violation({"property": "C20", "kind": "http.DefaultServeMux is served and exposes handlers outside the router that carries BasicAuth",
+                          "served_at": asm["default_mux_served"], "exposed_paths": {p: dm_status[p] for p in exposed},
+                          "registered_patterns": asm.get("default_mux_patterns"),
+                          "case": {"kind": "defaultmux", "path": exposed[0], "observed_status": dm_status[exposed[0]]},
+                          "curl": "curl -i http://<qryn>:<port of the listener opened at %s>%s   # no Authorization header; configured credentials: any" % (where, exposed[0]),
+                          "replay": "bin/check C20   (harness probe kind=defaultmux: GET %s on http.DefaultServeMux of a process linking the repository's packages -> %d)"
+                          % (exposed[0], dm_status[exposed[0]])})
+
     # -------- Walk = assembly
     walks = {l["cfg"]: l for l in lines if l["kind"] == "walk"}
+    agg_bad = []
     for cfgname, w in walks.items():
+        tier = w["config"].get("tier") or "rich"
         # per root router, in registration order (sub-routers are walked at their parent's position: compared as a set then)
         e = sorted(((r["router"], i, r["tpl"], sorted(r.get("methods") or [])) for i, r in enumerate(w["expected"])))
         g = sorted(((r["router"], i, r["tpl"], sorted(r.get("methods") or [])) for i, r in enumerate(w["walked"])))
@@ -242,14 +299,26 @@ def run_locked(ck):
             only_e = [x for x in e if x not in g]
             only_g = [x for x in g if x not in e]
             detail = "assembly only: %s; router only: %s; (order differs: %s)" % (only_e[:5], only_g[:5], sorted(e) == sorted(g))
-        ck.obligation("router.Walk lists exactly the %d routes of the assembly [%s]" % (len(e), cfgname), e == g and len(g) > 0, detail)
-        ck.obligation("assembly interpreted without problems; exactly one served root [%s]" % cfgname,
-                      not w.get("problems") and len(w.get("served") or []) >= 1,
-                      "problems=%s served=%s" % (w.get("problems"), w.get("served")))
+        ok1 = e == g and len(g) > 0
+        ok2 = not w.get("problems") and len(w.get("served") or []) >= 1
+        if tier == "rich":
+            ck.obligation("router.Walk lists exactly the %d routes of the assembly [%s]" % (len(e), cfgname), ok1, detail)
+            ck.obligation("assembly interpreted without problems; exactly one served root [%s]" % cfgname, ok2,
+                          "problems=%s served=%s" % (w.get("problems"), w.get("served")))
+        elif not (ok1 and ok2):
+            agg_bad.append("%s: %s problems=%s served=%s" % (cfgname, detail, w.get("problems"), w.get("served")))
         if w.get("unknown_atoms"):
             ck.extra["condition_atoms_outside_the_configuration"] = w["unknown_atoms"]
         if w.get("fallback"):
             ck.extra.setdefault("registration_functions_not_linked_by_the_harness", []).extend(sorted(set(w["fallback"])))
+    enum = [c for c, w in walks.items() if (w["config"].get("tier") or "rich") != "rich"]
+    ck.obligation("router.Walk lists exactly the assembly's routes, interpreted without problems, in each of the %d enumerated configurations "
+                  "(every Mode literal, \"\", an unknown mode x CORS off / on with empty origin / on with origin; ownHttpServer; ':' in the login; "
+                  "login or password empty)" % len(enum), not agg_bad and len(enum) >= 10, "; ".join(agg_bad[:4]))
+    ck.extra["configurations_enumerated"] = [{"name": c, "tier": walks[c]["config"].get("tier"), "routes": len(walks[c]["walked"]),
+                                              "env": "".join("1" if b else "0" for b in walks[c]["env"])} for c in walks]
+    # which valuations of the atoms did the harness realise?
+    ck.extra["distinct_valuations_exercised"] = len(set(tuple(w["env"]) for w in walks.values()))
 
     # -------- route cases
     cases = [l for l in lines if l["kind"] == "case"]
@@ -262,40 +331,91 @@ def run_locked(ck):
     mism, viol = [], []
     inexact = []
     shard = 9000
+    groups = []   # (walk, root, cases, with_spec)
     for cfgname, w in walks.items():
+        with_spec = (w["config"].get("tier") or "rich") != "open"
         for root in sorted(set(c.get("root", 0) for c in cases if c["cfg"] == cfgname)):
             cs = [c for c in cases if c["cfg"] == cfgname and c.get("root", 0) == root and not c["obs"].get("panic")]
             for k in range(0, len(cs), shard):
-                m, v, exact, out = eval_route_cases(ck, "C20_routes_%s_r%d_%d" % (re.sub(r"\W", "_", cfgname), root, k // shard), w, root, cs[k:k + shard])
-                if m is None or v is None:
-                    ck.obligation("route cases evaluated inside Coq [%s]" % cfgname, False, out[-1500:])
-                    return
-                if not exact:
-                    inexact.append(cfgname)
-                mism += m
-                viol += v
-    ck.obligation("spec oracle spec_ok accepts every observation of the real router (%d requests)" % len(cases), not viol and not panics,
-                  "violating case ids: %s" % viol[:10])
+                groups.append((w, root, cs[k:k + shard], with_spec))
+    # pack the groups into files of at most `shard` cases
+    files, curf, curn = [], [], 0
+    for g in groups:
+        if curf and curn + len(g[2]) > shard:
+            files.append(curf)
+            curf, curn = [], 0
+        curf.append(g)
+        curn += len(g[2])
+    if curf:
+        files.append(curf)
+    for fi, gs in enumerate(files):
+        m, v, inex, out = eval_route_groups(ck, "C20_routes_%d" % fi, gs)
+        if m is None or v is None:
+            ck.obligation("route cases evaluated inside Coq [%s]" % ", ".join(g[0]["cfg"] for g in gs)[:200], False, out[-1500:])
+            return
+        inexact += inex
+        mism += m
+        viol += v
+    nspec = sum(len(g[2]) for g in groups if g[3])
+    ck.obligation("spec oracle spec_ok accepts every observation of the real router (%d requests in %d configurations with login and password set)"
+                  % (nspec, len(set(g[0]["cfg"] for g in groups if g[3]))), not viol and not panics, "violating case ids: %s" % viol[:10])
     if viol:
-        worst = min((byid[i] for i in viol), key=lambda c: (len(c["req"]["auth"]), c["req"]["gzip"], c["req"]["origin"], c["id"]))
+        worst = min((byid[i] for i in viol), key=lambda c: (len(c["req"]["auth"]), c["req"]["gzip"], c["req"]["origin"], bool(c["req"].get("upgrade")), c["id"]))
         cfg = walks[worst["cfg"]]["config"]
         ck.violation({"property": "C20", "kind": "a request without exactly the configured credentials got past the authentication (or one with them was refused)",
-                      "case": worst, "configured": {"login": cfg["login"], "password": cfg["pass"]},
+                      "case": worst, "configured": {"login": cfg["login"], "password": cfg["pass"], "cors": cfg.get("cors"), "mode": cfg.get("mode")},
                       "authorization_header": unhex(worst["req"]["auth"]).decode("latin1") if worst["req"]["has_auth"] else None,
                       "observed": worst["obs"], "explanation": "spec_ok (model/Router.v) rejects this observation of the real router: exact_credentials is %s for this header"
                       % ("true" if worst["obs"]["status"] in (400, 401) else "false"),
-                      "curl": curl_of(worst, "%s / %s" % (cfg["login"], cfg["pass"])),
+                      "curl": curl_of(worst, "%s / %s%s" % (cfg["login"], cfg["pass"], ", CORS enabled" if cfg.get("cors") else "")),
                       "replay": "bin/check C20 --replay <this file>   (harness: authroutes --assembly .build/gen/GenRoutes.json --replay <file with the case line>)"})
     strict_cfgs = [c for c in walks if c not in inexact]
     mism_gate = [i for i in mism if byid[i]["cfg"] in strict_cfgs or byid[i]["obs"]["status"] not in (404, 405)]
-    ck.obligation("correspondence: model dispatch+chain = real router on %d requests" % len(cases), not mism_gate,
+    ck.obligation("correspondence: model dispatch+chain = real router on %d requests (%d configurations)" % (len(cases), len(walks)), not mism_gate,
                   "mismatching case ids: %s" % mism_gate[:10])
     if mism_gate and not viol:
         worst = byid[mism_gate[0]]
         ck.violation({"property": "C20", "kind": "model and implementation disagree; the property's oracle accepts the observation",
                       "case": worst, "curl": curl_of(worst), "broken": "correspondence Router.dispatch vs mux + middlewares"}, no_input=True)
     if inexact:
-        ck.extra["dispatch_not_exact_in"] = inexact
+        ck.extra["dispatch_not_exact_in"] = sorted(set(inexact))
+
+    # -------- named controls (measured on the real code; each is the replay of a theorem of props/C20.v)
+    def pick(cfg, rclass, cls, **kw):
+        for c in cases:
+            if c["cfg"] == cfg and c["rclass"] == rclass and c["class"] == cls and all(c["req"].get(k) == v for k, v in kw.items()):
+                return c
+        return None
+    controls = {}
+
+    def control(name, c, ok, theorem):
+        controls[name] = {"theorem": theorem, "ok": bool(c) and bool(ok(c)), "request": c and curl_of(c, None), "observed": c and c["obs"]}
+    control("preflight OPTIONS without credentials on a GET route: router's 405, no middleware, no handler",
+            pick("all+cors/A", "preflight-options", "absent", path="/ready"), lambda c: c["obs"]["status"] == 405 and c["obs"]["ran"] == 0, "preflight_cannot_bypass")
+    control("pre-flight headers on the route's own method without credentials: 401 from BasicAuth, no handler, no CORS answer",
+            pick("all+cors/A", "preflight-header", "absent", path="/ready"),
+            lambda c: c["obs"]["status"] == 401 and c["obs"]["ran"] == 0 and c["obs"]["www"] and not c["obs"]["cors"], "preflight_cannot_bypass")
+    control("websocket handshake on the tail route without credentials: 401, connection not taken over",
+            pick("all+cors/A", "ws-handshake", "absent", gzip=True), lambda c: c["obs"]["status"] == 401 and c["obs"]["ran"] == 0 and not c["obs"].get("hijacked"),
+            "no_handler_without_credentials")
+    control("websocket handshake on the tail route with the credentials and Accept-Encoding: gzip: handler runs, hijacks through the wrappers, 101",
+            pick("all+cors/A", "ws-handshake", "right", gzip=True), lambda c: c["obs"]["status"] == 101 and c["obs"]["ran"] == 1 and c["obs"].get("hijacked"),
+            "right_credentials_pass")
+    control("login containing ':' -- the header built from the configured credentials is refused (401)",
+            pick("colon-login", "route", "right", path="/ready"), lambda c: c["obs"]["status"] == 401 and c["obs"]["ran"] == 0, "colon_login_locks_out")
+    control("password containing ':' -- the header built from the configured credentials passes",
+            pick("all+cors/A", "route", "right", path="/ready", gzip=False, origin=False), lambda c: c["obs"]["ran"] == 1 and c["obs"]["status"] not in (400, 401),
+            "password_may_contain_colon")
+    control("login set, password EMPTY: main() installs no BasicAuth -- GET /ready without any header reaches the handler (fail-open; premise of C20 not met)",
+            pick("open/login-without-password", "route", "absent", path="/ready"), lambda c: c["obs"]["ran"] == 1 and c["obs"]["status"] not in (400, 401),
+            "login_without_password_is_open")
+    control("password set, login EMPTY: the same",
+            pick("open/password-without-login", "route", "absent", path="/ready"), lambda c: c["obs"]["ran"] == 1 and c["obs"]["status"] not in (400, 401),
+            "login_without_password_is_open")
+    badc = [k for k, v in controls.items() if not v["ok"]]
+    ck.obligation("named controls on the real router (%d): pre-flight, websocket handshake, ':' in login / password, empty password" % len(controls),
+                  not badc, "; ".join("%s -> %s" % (k, controls[k]["observed"]) for k in badc[:3]))
+    ck.extra["controls"] = controls
 
     # -------- the real handlers (back-end log is live; nothing reaches it without the credentials)
     execs = [l for l in lines if l["kind"] == "exec"]
